@@ -13,6 +13,7 @@ def lists_differ(a, b):
     return z3.Or([x != y for x, y in zip(a, b)])
 
 def check(R, tier):
+    R.fallback_kinds = {'rollback'}
     I = R.interp('tough'); install_world(I)
     RT = variants('RoleType'); TS, SN = RT.index('Timestamp'), RT.index('Snapshot')
     R.bounds.update({'key list lengths (timestamp, snapshot)': '1 and 2 on either side of the rotation', 'root hops': 1, 'stored versions': 'any u64 (up to 2^64-1)',
